@@ -21,7 +21,9 @@ fn iter_op(&mut self, kind: u64, frac: u64, cont: u64) -> Result<(), Bad> {
     let mutate = cont != 4;
     match kind % 5 {
         0 => {
-            let (got, c) = drive_iter(s.map.iter(), total, prefix, cont, Some(&|i: &hb::hash_map::Iter<'_, K, V>| i.clone()), "iter", |(k, v)| {
+            // odd fractions go through `IntoIterator for &HashMap`
+            let it = if frac & 1 == 1 { (&s.map).into_iter() } else { s.map.iter() };
+            let (got, c) = drive_iter(it, total, prefix, cont, Some(&|i: &hb::hash_map::Iter<'_, K, V>| i.clone()), "iter", |(k, v)| {
                 k.check("iter key");
                 v.check("iter value");
                 (k.id() as u64, v.get())
@@ -34,7 +36,9 @@ fn iter_op(&mut self, kind: u64, frac: u64, cont: u64) -> Result<(), Bad> {
         }
         1 => {
             let mut touched = Vec::new();
-            let (got, c) = drive_iter(s.map.iter_mut(), total, prefix, cont, None, "iter_mut", |(k, v)| {
+            // odd fractions go through `IntoIterator for &mut HashMap`
+            let it = if frac & 1 == 1 { (&mut s.map).into_iter() } else { s.map.iter_mut() };
+            let (got, c) = drive_iter(it, total, prefix, cont, None, "iter_mut", |(k, v)| {
                 k.check("iter_mut key");
                 v.check("iter_mut value");
                 let old = v.get();
